@@ -191,6 +191,10 @@ func c04Loopback(c *Ctx) {
 				time.Sleep(time.Millisecond)
 			}
 		}}
+		l.errRet = i%2 == 0
+		if i%3 == 1 {
+			l.errSleep = 2 * time.Millisecond
+		}
 		q := make(chan os.Signal, 1)
 		done := make(chan error, 1)
 		go func() { done <- u.Listen(l, q) }()
@@ -211,6 +215,15 @@ func c04Loopback(c *Ctx) {
 			defer sender.Done()
 			for k := 0; k < burst; k++ {
 				ev := r.Reply(rm.FindOp("GetStatus"), 0x17, 7000+uint32(k), rm.Vals{}, true)
+				if (k+i)%3 == 2 { // rejected datagrams in between (wrong length, serial number 0): the error callback, in bursts too
+					if k%2 == 0 {
+						ev = ev[:10+k%50]
+					} else {
+						copy(ev[4:8], []byte{0, 0, 0, 0})
+					}
+					conn.Write(ev)
+					conn.Write(ev[:5])
+				}
 				conn.Write(ev)
 				if k%5 == 4 {
 					time.Sleep(time.Millisecond)
@@ -243,8 +256,15 @@ func c04Loopback(c *Ctx) {
 type c04Listener struct {
 	connected *atomic.Int64
 	on        func(*types.Status)
+	errRet    bool          // what OnError returns (the library must cope with either)
+	errSleep  time.Duration // a slow OnError: the next rejected datagram is already queued when it returns
 }
 
 func (l *c04Listener) OnConnected()            { l.connected.Add(1) }
 func (l *c04Listener) OnEvent(s *types.Status) { l.on(s) }
-func (l *c04Listener) OnError(error) bool      { return true }
+func (l *c04Listener) OnError(error) bool {
+	if l.errSleep > 0 {
+		time.Sleep(l.errSleep)
+	}
+	return l.errRet
+}
